@@ -115,6 +115,11 @@ def wrap(
     Returns:
         str: The wrapped string.
     """
+    # Leading whitespace is not part of the comment, and `textwrap` drops it
+    # when the first word does not fit next to it, in which case the wrapped
+    # first line would no longer be a prefix of the text it is cut from below.
+    text = text.lstrip()
+
     # Quick check: If there is empty text, abort.
     if not text:
         return ""
